@@ -369,14 +369,15 @@ def run_part(ck, tier):
     exes = build()
     mcres = []
 
-    def model_check():
-        for mc in cfg["mc"]:
+    def model_check(mcs):
+        for mc in mcs:
             try:
-                mcres.append((mc, vlib.tlc("MC_Mapping", mc, tag="MC_Mapping-" + mc, workers=max(2, vlib.NCPU // 3), xss="64m")))
+                mcres.append((mc, vlib.tlc("MC_Mapping", mc, tag="MC_Mapping-" + mc, workers=max(2, vlib.NCPU // 4), xss="64m")))
             except Exception as e:
                 mcres.append((mc, e))
-    th = threading.Thread(target=model_check)
-    th.start()
+    mths = [threading.Thread(target=model_check, args=(cfg["mc"][k::2],)) for k in range(2)]
+    for t in mths:
+        t.start()
     nt = set()
     samples = []
     exports = {}
@@ -391,11 +392,11 @@ def run_part(ck, tier):
         brng = random.Random(ck.rng.randrange(1 << 30))
         sample_b = binding_b(ck, exes, brng, cfg["nhist"], cfg["steps"], nt)
     finally:
-        for t in gths + [th]:
+        for t in gths + mths:
             t.join()
     if len(mcres) != len(cfg["mc"]):
         raise vlib.MachineryError("X22 model checking run did not finish")
-    for mc, res in mcres:
+    for mc, res in sorted(mcres, key=lambda x: cfg["mc"].index(x[0])):
         if isinstance(res, Exception):
             raise vlib.MachineryError("X22 model checking %s: %s" % (mc, res))
         ck.add_tlc(res, "x22 exhaustive " + mc)
@@ -444,6 +445,9 @@ def replay(det, path="-"):
 if __name__ == "__main__":
     # standalone runner of the part (development): python3 checks/x22_mapping.py [quick|thorough]
     tier = sys.argv[1] if len(sys.argv) > 1 else "quick"
+    import glob
+    for old in glob.glob(os.path.join(vlib.WORK, "violations", "X22dev-*.json")):
+        os.unlink(old)
     ck = vlib.Check("C10", tier)
     ck.pid = "X22dev"          # own violation files; the open findings of C10 apply
     try:
